@@ -26,6 +26,7 @@
 """
 import json
 import random
+import time
 import warnings
 from concurrent.futures import ThreadPoolExecutor
 
@@ -207,7 +208,7 @@ def judge(check, jobs, results, name):
             lines.append(ln)
             owner.append((ji, li))
     fails = trace.validate(check, "TraceTlsAgree", lines, name=name, constants=TRACE_CONSTANTS,
-                           group_key=lambda ln: ln["ev"] == "init")
+                           group_key=lambda ln: ln["ev"] == "init", shards=max(1, min(16 if len(lines) > 100000 else 8, len(lines) // 3000)))
     check.cov["traces_validated_against_impl"] += len(jobs)
     seen = set()
     for i, clause in fails:
@@ -226,7 +227,9 @@ def judge(check, jobs, results, name):
 
 
 def run_jobs(jobs):
-    return runner.run_many(job_fn, jobs) if jobs else []
+    if len(jobs) < 200:            # starting the worker pool costs more than a few hundred handshakes
+        return [job_fn(j) for j in jobs]
+    return runner.run_many(job_fn, jobs)
 
 
 # -------------------------------------------------------------------- main
@@ -263,8 +266,10 @@ def run(check):
         runs.append(("product", tlc_cfg(print_cases=False, VersionsC="AllVersionsC", VersionsS="AllVersionsS", PskOpts="AllPskOpts",
                                         TamperKinds="AllTamperKinds", CreqOpts="AllCreq", AlpnListsC="AllAlpnLists",
                                         AlpnListsS="AllAlpnLists")))
+    phases, t0 = {}, time.time()
     with ThreadPoolExecutor(max_workers=len(runs)) as ex:
-        rs = list(ex.map(lambda nr: check.run_tlc("TlsAgree", nr[1], name="TlsAgree_" + nr[0], workers=6 if quick else 8), runs))
+        rs = list(ex.map(lambda nr: check.run_tlc("TlsAgree", nr[1], workers=6 if quick else 8,
+                                                  name="TlsAgree_" + nr[0] + ("_must_find_a_completing_behaviour" if nr[0] == "reach" else "")), runs))
     tlc_cases = {}
     for (name, _), r in zip(runs, rs):
         if name == "reach":
@@ -280,6 +285,7 @@ def run(check):
             raise MachineryError("TLC printed %d initial configurations of run %s, expected %d" % (len(tlc_cases[n]), n, w))
     check.cov["configurations_from_tlc"] = {n: len(v) for n, v in tlc_cases.items() if v}
 
+    phases["tlc_design_runs"] = round(time.time() - t0, 1)
     seed = lambda: rnd.randrange(1 << 30)       # noqa: E731
     jobs = []
 
@@ -317,7 +323,9 @@ def run(check):
               ("v2-compatible-retry", dict(DEFAULT_K, cv=["v2", "v1"], co="v1", retry=True, sa=["-"]), "ed25519")]
     sweep_refs = [{"k": k, "ident": ident, "tamper": None, "script": [], "seed": 1000 + i, "class": "sweep-ref"}
                   for i, (_, k, ident) in enumerate(sweeps)]
+    t0 = time.time()
     refs = run_jobs(ref_jobs + sweep_refs)
+    phases["reference_runs"] = round(time.time() - t0, 1)
     ref_res, sweep_res = refs[:len(ref_jobs)], refs[len(ref_jobs):]
     # (R) configuration x altered message kind from TLC: concrete positions
     for k, tk in tam_cases:
@@ -357,9 +365,14 @@ def run(check):
         j = rnd.choice(pool if i % 4 else pool2)
         jobs.append(dict(j, script=script.random_script(rnd, rnd.choice([4, 8, 16]), LOSSY), seed=j["seed"], **{"class": "lossy:" + j["class"]}))
 
+    t0 = time.time()
     results = run_jobs(jobs)
+    phases["runs"] = round(time.time() - t0, 1)
     all_jobs, all_res = ref_jobs + sweep_refs + jobs, refs + results
+    t0 = time.time()
     judge(check, all_jobs, all_res, "TraceTlsAgree")
+    phases["tlc_trace_judging"] = round(time.time() - t0, 1)
+    check.cov["phase_wall_s"] = phases
 
     # ---- coverage ----------------------------------------------------------------------------
     by_class, altered = {}, {}
